@@ -550,6 +550,26 @@ func TestBatch(t *testing.T) {
 			}
 			mine++
 			c := plan[idx]
+			if !sim {
+				// under the race detector a 2^23-bit transform costs gigabytes of
+				// shadow memory per caller: two callers are enough for the detector
+				// (it needs two unordered accesses, not many), and only the process
+				// with most CPUs takes such cases at all
+				huge := false
+				for _, sp := range c.Inputs {
+					if sp.N > 200000 {
+						huge = true
+					}
+				}
+				if huge {
+					if job.I != job.N-1 {
+						continue
+					}
+					if len(c.Tasks) > 2 {
+						c.Tasks = c.Tasks[:2]
+					}
+				}
+			}
 			o := eval(&c)
 			res.Cases++
 			if job.Dump {
